@@ -255,3 +255,84 @@ Definition param_file_read (data : yv) : param_file_res :=
     end
   | _ => PF_Err ErrShape
   end.
+
+(* ---------------------------------------------------------------- the data domain of the YAML hypothesis *)
+
+Definition is_nan64 (b : Z) : bool := ((b / 2 ^ 52) mod 2048 =? 2047) && negb (b mod 2 ^ 52 =? 0).
+
+Definition yv_key (k : yv) : bool := match k with YStr _ | YInt _ => true | _ => false end.
+
+(* "plain data": None, bool, int, str, non-NaN binary64 floats, lists of plain data, dicts with str/int keys and
+   plain values.  Nothing else can be written down as a yv (no tuples, no objects); NaN is excluded because
+   PyYAML writes every NaN as `.nan` and does not give the payload back. *)
+Fixpoint yv_plain (v : yv) : bool :=
+  match v with
+  | YFloat b => (0 <=? b) && (b <? 2 ^ 64) && negb (is_nan64 b)
+  | YList l => forallb yv_plain l
+  | YDict d => forallb (fun kv => match kv with (k, x) => yv_key k && yv_plain x end) d
+  | _ => true
+  end.
+
+(* ---------------------------------------------------------------- memory objects <-> file objects
+   The same Python objects carry the values between the two representations: set_from_mem_data stores the
+   floats struct.unpack returns (binary64 values of the binary32 fields) in LISTS, as_file_object hands these
+   lists to yaml; from_file_object stores what yaml loaded, add_mem_data packs it with struct 'f'.
+   w : binary32 pattern -> binary64 pattern of the same value;  n : the way back (exact for such values). *)
+
+Definition yfl (w : Z -> Z) (l : list Z) : yv := YList (map (fun b => YFloat (w b)) l).
+
+Definition geo_obj_of_mem (w : Z -> Z) (g : lh_geo) : fgeo :=
+  let fs := g_floats g in
+  mk_fgeo (yfl w (firstn 3 fs)) (YList [yfl w (slice fs 3 6); yfl w (slice fs 6 9); yfl w (slice fs 9 12)]) (g_valid g).
+
+Definition calib_obj_of_mem (w : Z -> Z) (c : lh_calib) : fcalib :=
+  mk_fcalib (map (fun b => YFloat (w b)) (firstn 7 (c_floats c))) (map (fun b => YFloat (w b)) (skipn 7 (c_floats c)))
+            (YInt (c_uid c)) (c_valid c).
+
+Definition narrow_all (n : Z -> Z) (l : list yv) : option (list Z) :=
+  opt_all (map (fun x => match x with YFloat b => Some (n b) | _ => None end) l).
+
+Definition vec3_of (n : Z -> Z) (v : yv) : option (list Z) :=
+  match v with
+  | YList [a; b; c] => narrow_all n [a; b; c]
+  | _ => None
+  end.
+
+(* what add_mem_data packs for an object that came from a file; None = outside the model (not three floats) *)
+Definition geo_mem_of_obj (n : Z -> Z) (f : fgeo) : option lh_geo :=
+  match vec3_of n (fg_origin f), fg_rot f with
+  | Some o, YList [r0; r1; r2] =>
+    match vec3_of n r0, vec3_of n r1, vec3_of n r2 with
+    | Some a, Some b, Some c => Some (mk_geo (o ++ a ++ b ++ c) (fg_valid f))
+    | _, _, _ => None
+    end
+  | _, _ => None
+  end.
+
+Definition calib_mem_of_obj (n : Z -> Z) (f : fcalib) : option lh_calib :=
+  match narrow_all n (fc_s0 f), narrow_all n (fc_s1 f), fc_uid f with
+  | Some a, Some b, YInt u =>
+    if (length a =? 7)%nat && (length b =? 7)%nat then Some (mk_calib (a ++ b) u (fc_valid f)) else None
+  | _, _, _ => None
+  end.
+
+(* concrete conversions, used to run the model next to the code (struct 'f' unpack / pack of exact values) *)
+Definition widen32 (b : Z) : Z :=
+  let s := b / 2 ^ 31 in
+  let e := (b / 2 ^ 23) mod 256 in
+  let m := b mod 2 ^ 23 in
+  if e =? 255 then s * 2 ^ 63 + 2047 * 2 ^ 52 + m * 2 ^ 29
+  else if e =? 0 then
+    if m =? 0 then s * 2 ^ 63
+    else let k := Z.log2 m in s * 2 ^ 63 + (k - 149 + 1023) * 2 ^ 52 + (m - 2 ^ k) * 2 ^ (52 - k)
+  else s * 2 ^ 63 + (e - 127 + 1023) * 2 ^ 52 + m * 2 ^ 29.
+
+Definition narrow32 (b : Z) : Z :=
+  let s := b / 2 ^ 63 in
+  let e := (b / 2 ^ 52) mod 2048 in
+  let m := b mod 2 ^ 52 in
+  if e =? 2047 then s * 2 ^ 31 + 255 * 2 ^ 23 + m / 2 ^ 29
+  else if (e =? 0) && (m =? 0) then s * 2 ^ 31
+  else let E := e - 1023 + 127 in
+       if 1 <=? E then s * 2 ^ 31 + E * 2 ^ 23 + m / 2 ^ 29
+       else s * 2 ^ 31 + (2 ^ 52 + m) / 2 ^ (30 - E).
